@@ -13,7 +13,7 @@ def sweep(ctx, n):
 
     rng, fails, done, kinds = ctx.rng, [], 0, {}
     KINDS = ["cuboid-split", "cuboid-mesh-tetra-triangles", "cylinder-segments", "sphere-dipole", "mesh-converters", "polyline-circle",
-             "polyline-split"]
+             "polyline-split", "segment-angle-turns", "cuboid-mesh-lattice"]
 
     def rel(a, b):
         return float(np.max(np.abs(a - b)) / (np.max(np.abs(b)) + 1e-300))
@@ -73,6 +73,43 @@ def sweep(ctx, n):
                     ax = [magpy.magnet.CylinderSegment(dimension=(r1, r2, zc, 0, 360), polarization=pol, position=(0, 0, -h / 2 + zc / 2)),
                           magpy.magnet.CylinderSegment(dimension=(r1, r2, h - zc, 0, 360), polarization=pol, position=(0, 0, h / 2 - (h - zc) / 2))]
                     err = max(err, rel(get(magpy.Collection(*ax), obs[:3]), ref[:3]))
+            elif kind == "segment-angle-turns":
+                # the same angular range written one or two full turns away is the same body
+                r2, h = nps.uniform(0.5, 1.5), nps.uniform(0.5, 2)
+                r1 = nps.uniform(0.1, 0.6) * r2
+                a = float(np.round(nps.uniform(-180, 120), 2))
+                b = a + float(np.round(nps.uniform(30, 330), 2))
+                k = rng.choice([-2, -1, 1, 2])
+                s0 = magpy.magnet.CylinderSegment(dimension=(r1, r2, h, a, b), polarization=pol)
+                s1 = magpy.magnet.CylinderSegment(dimension=(r1, r2, h, a + 360 * k, b + 360 * k), polarization=pol)
+                ph = np.radians(a + (b - a) * np.array([0.03, 0.2, 0.5, 0.8, 0.97]))
+                rr = (r1 + r2) / 2
+                inner = np.stack([rr * np.cos(ph), rr * np.sin(ph), nps.uniform(-0.3, 0.3, 5) * h], axis=1)
+                gap = np.radians(b + (a + 360 - b) * np.array([0.1, 0.5, 0.9]))
+                outer = np.stack([rr * np.cos(gap), rr * np.sin(gap), nps.uniform(-0.3, 0.3, 3) * h], axis=1)
+                obs = np.concatenate([far_points(nps, 3, lo=2.2, hi=5), inner, outer])
+                err = max(rel(magpy.getB(s1, obs), magpy.getB(s0, obs)), rel(magpy.getH(s1, obs), magpy.getH(s0, obs)),
+                          rel(magpy.getJ(s1, obs), magpy.getJ(s0, obs)))
+            elif kind == "cuboid-mesh-lattice":
+                # observers on a lattice commensurate with the body (coordinates in simple ratios): inside/outside
+                # decisions of the mesh classes must not depend on such coincidences
+                dim = np.array([rng.choice([1.0, 1.5, 2.0]) for _ in range(3)])
+                size = dim.max()
+                cub = magpy.magnet.Cuboid(dimension=dim, polarization=pol)
+                v = np.array([[x, y, z] for x in (-1, 1) for y in (-1, 1) for z in (-1, 1)]) * dim / 2
+                fc = np.array([[0, 1, 3], [0, 3, 2], [4, 6, 7], [4, 7, 5], [0, 4, 5], [0, 5, 1], [2, 3, 7], [2, 7, 6], [0, 2, 6], [0, 6, 4], [1, 5, 7], [1, 7, 3]])
+                meshes = [magpy.magnet.TriangularMesh(vertices=v, faces=fc, polarization=pol), magpy.magnet.TriangularMesh.from_ConvexHull(points=v, polarization=pol)]
+                nlat = rng.choice([10, 20, 40])
+                ijk = nps.integers(1, nlat * 2, (700, 3))
+                # lines on which the coordinates measured from the lowest corner are in ratio 1:2, 2:1, 1:1
+                t = nps.integers(1, nlat, 60)
+                ijk = np.concatenate([ijk, np.stack([2 * t, t, nps.integers(1, nlat, 60)], axis=1), np.stack([t, 2 * t, nps.integers(1, nlat, 60)], axis=1),
+                                      np.stack([t, t, t], axis=1)])
+                pts = -dim / 2 + ijk * size / nlat
+                pts = pts[np.all(np.abs(pts) < dim / 2 * (1 - 1e-9), axis=1)]
+                ref = magpy.getB(cub, pts)
+                err = max(rel(magpy.getB(m, pts), ref) for m in meshes)
+                err = max(err, max(rel(magpy.getJ(m, pts), magpy.getJ(cub, pts)) for m in meshes))
             elif kind == "sphere-dipole":
                 d = nps.uniform(0.5, 2)
                 sph = magpy.magnet.Sphere(diameter=d, polarization=pol, position=pos)
